@@ -71,8 +71,8 @@ type countingReader struct {
 }
 
 func c15Run(front string, keys []kit.KeySpec, cn C15Conn, cacheOn bool, idx int) (o c15Obs) {
-	cn.Seed = cn.Seed*64 + int64(idx) // distinct handshakes per connection of the case
-	cn.Chunk = max(cn.Chunk, cn.Up/300)  // bound the number of chunks
+	cn.Seed = cn.Seed*64 + int64(idx)   // distinct handshakes per connection of the case
+	cn.Chunk = max(cn.Chunk, cn.Up/300) // bound the number of chunks
 	ks := keys[cn.Key]
 	key := ks.Key()
 	tgt, err := kit.NewTCPTarget("127.0.0.1")
@@ -314,7 +314,9 @@ func runC15(c C15Case, info *kit.Info) *kit.Finding {
 	}
 	h := service.NewStreamHandler(service.NewShadowsocksStreamAuthenticator(kit.NewCipherList(c.Keys), cache, nil, nil), 5*time.Second)
 	h.SetTargetDialer(kit.PermissiveDialer)
-	front, err := kit.ServeTCP("127.0.0.1", func(ctx context.Context, conn transport.StreamConn) { h.Handle(ctx, conn, met.AddOpenTCPConnection(conn)) })
+	front, err := kit.ServeTCP("127.0.0.1", func(ctx context.Context, conn transport.StreamConn) {
+		h.Handle(ctx, conn, met.AddOpenTCPConnection(conn))
+	})
 	if err != nil {
 		info.Skipped = err.Error()
 		return nil
